@@ -102,6 +102,16 @@ def _cases(tier, seed):
             for shape in ("1d", "2d"):
                 yield dict(kind="filter", alpha="vector", step=key, w=w, shape=shape)
                 yield dict(kind="vector_parts", step=key, w=w, shape=shape)
+        yield dict(kind="filter", alpha="vector", step=key, w=True, shape="1d", wconst=True)
+        yield dict(kind="vector_parts", step=key, w=True, shape="1d", wconst=True)
+    for alpha, names in (("scalar", sorted(SCALAR)), ("vector", sorted(VECTOR))):
+        for L in (1, 2):
+            for steps in itertools.product(names, repeat=L):
+                if not all(s in REDUCERS for s in steps):
+                    yield dict(kind="chain", alpha=alpha, steps=list(steps), ds=0, w=True, shape="1d", wconst=True)
+
+
+WCONST = [False]
 
 
 def _dataset(i):
@@ -120,6 +130,9 @@ def _dataset(i):
     d1 = -1.0 * e + 4.0 * n + ((k * 3) % 7 - 3) * 0.21 - 5.0
     w0 = 1.0 + (k % 4) * 0.5
     w1 = 3.0 - (k % 3) * 0.75
+    if WCONST[0]:
+        # the same weight for every point, different from 1 (constant uncertainties): still weights (seed C06-12)
+        w0, w1 = np.full(e.size, 250.0), np.full(e.size, 0.004)
     return e, n, (d0, d1), (w0, w1)
 
 
@@ -177,6 +190,7 @@ def run(case, rec):
     import verde as vd
 
     warnings.simplefilter("ignore")
+    WCONST[0] = bool(case.get("wconst"))
     kind = case["kind"]
     qe, qn = np.meshgrid(np.linspace(0.25, 3.75, 5), np.linspace(0.25, 1.75, 3))
     if kind in ("chain", "history"):
